@@ -98,15 +98,79 @@ PROPS['C17'] = {
     'assumptions': CRYPTO_ASSUMPTIONS,
 }
 
+_TOKEN_CONTRACT_TRUST = [
+    'unit token: the container layer (crypto/mod.rs, format/mod.rs) enters as contracts only; each is proved in unit chain from the same contract text (//@include-contracts)',
+    'SymbolTable::{from, extend, is_disjoint}, PublicKeys::{extend, insert, insert_fallible}, BlockBuilder::build, proto_block_to_token_block, Block::print_source: assumed contracts on the real signatures (HashSet / iterator / fmt code)',
+    'Vec::len() < usize::MAX for the block vectors (requires clauses named len): a Vec of non-zero-sized elements cannot reach usize::MAX elements',
+]
+PROPS['C07']['units'].append({'template': 'token.rs', 'rlimit': 30, 'items': [
+    r'^token::Biscuit::(append_third_party_with_keypair|third_party_request|block_external_key|external_public_keys)$',
+    r'^token::unverified::UnverifiedBiscuit::(append_third_party_with_keypair|third_party_request|external_public_keys)$',
+    r'^token::third_party::ThirdPartyRequest::', r'^format::SerializedBiscuit::extract_blocks$']})
+PROPS['C07']['proved'] += (' Token level: Biscuit::append_third_party_with_keypair returns Ok only if the supplied key decodes to the stated external key and the '
+    'external signature verifies over external_payload_v1(payload, signature of the current last block, 1); the appended block carries exactly that payload and key, '
+    'and the token symbol / public-key tables are left untouched on the verified and on the unverified path; ThirdPartyRequest::from_container copies the last signature '
+    'and refuses sealed tokens; create_block signs external_payload_v1(payload, previous signature, 1) with the given private key.')
+PROPS['C07']['assumptions'] = CRYPTO_ASSUMPTIONS + _TOKEN_CONTRACT_TRUST
+PROPS['C08']['units'].append({'template': 'token.rs', 'rlimit': 30, 'items': [
+    r'^token::Biscuit::(seal|append_with_keypair|append_third_party_with_keypair|third_party_request)$',
+    r'^token::unverified::UnverifiedBiscuit::(seal|append_with_keypair|append_third_party_with_keypair|third_party_request)$',
+    r'^token::third_party::ThirdPartyRequest::from_container$']})
+PROPS['C08']['proved'] += (' Token level: Biscuit::seal / UnverifiedBiscuit::seal keep authority, blocks, symbols and root key id and only replace the container proof; '
+    'append, append_third_party, third_party_request and seal on a sealed token return an error.')
+PROPS['C08']['assumptions'] = CRYPTO_ASSUMPTIONS + _TOKEN_CONTRACT_TRUST
+PROPS['C15']['units'].append({'template': 'token.rs', 'rlimit': 30, 'items': [
+    r'^token::Biscuit::(revocation_identifiers|seal|append_with_keypair|append_third_party_with_keypair)$',
+    r'^token::unverified::UnverifiedBiscuit::(revocation_identifiers|seal|append_with_keypair|append_third_party_with_keypair|verify)$']})
+PROPS['C15']['proved'] += (' Token level: revocation_identifiers() is exactly [authority signature] ++ block signatures, in order, on both token types; every append / seal / verify '
+    'keeps the existing container blocks as a prefix (appended / frame clauses).')
+PROPS['C15']['assumptions'] = CRYPTO_ASSUMPTIONS + _TOKEN_CONTRACT_TRUST
+
+PROPS['C09'] = {
+    'units': [{'template': 'token.rs', 'rlimit': 30, 'items': [
+        r'^token::Biscuit::', r'^token::unverified::UnverifiedBiscuit::', r'^token::third_party::', r'^format::SerializedBiscuit::extract_blocks$',
+        r'^builder::Algorithm::']},
+        {'template': 'chain.rs', 'rlimit': 30, 'items': [r'^format::SerializedBiscuit::(deserialize|from_slice|unsafe_from_slice|verify_inner|verify)$',
+        r'^crypto::(ed25519|p256)::', r'^crypto::(PublicKey|PrivateKey|KeyPair)::(from_bytes|from_proto)$']}],
+    'proved': 'absence of panics (index, slice range, unwrap/expect, integer overflow, cast) inside the listed functions for every input, including every block index: '
+              'Biscuit / UnverifiedBiscuit accessors (block, block_symbols, block_external_key, block_count, print_block_source, block_version, context, revocation_identifiers, '
+              'external_public_keys), seal, append*, append_third_party*, third_party_request, ThirdPartyRequest::{from_container, deserialize, create_block}, '
+              'SerializedBiscuit::{deserialize, from_slice, verify_inner, extract_blocks} and the key decoders.',
+    'not_covered': ['inside prost, nom, regex, fmt and the Datalog engine (termination, stack depth)', 'snapshots, policies, Datalog source parsing, PEM/DER',
+                    'Biscuit::block_public_keys (PublicKeys::insert assumed)', 'the authorizer (see C10 for limit arithmetic)'],
+    'assumptions': CRYPTO_ASSUMPTIONS + _TOKEN_CONTRACT_TRUST,
+    'level_text': 'Deductive proof of panic-freedom for an explicit list of functions (named in the evidence): Verus turns every index, slice, unwrap, arithmetic operation and cast '
+                  'in the extracted text into a side condition and discharges it for all inputs. The property as a whole (every entry point of the library) is NOT decided; only the listed functions are.',
+}
+PROPS['C12'] = {
+    'units': [{'template': 'token.rs', 'rlimit': 30, 'items': [
+        r'^format::SerializedBiscuit::extract_blocks$', r'^datalog::symbol::SymbolTable::new$', r'^token::public_keys::PublicKeys::new$',
+        r'^token::Biscuit::(new_with_key_pair|from_with_symbols|from_serialized_container|append_with_keypair|append_third_party_with_keypair|seal|block)$',
+        r'^token::unverified::UnverifiedBiscuit::(from_with_symbols|unsafe_deprecated_deserialize|append_with_keypair|append_third_party_with_keypair|seal|verify|block)$']}],
+    'proved': 'the representation invariant blocks.len() == container.blocks.len() is established by every constructor and kept by every append / seal / verify on both token types; '
+              'extract_blocks returns exactly the decoded payload of every container block; appending a third-party block leaves the token symbol and public-key tables unchanged on the '
+              'verified AND the unverified path (the latter only after fix 5c2d5c0); seal and verify move the tables unchanged.',
+    'not_covered': ['the full table invariant token.symbols == tables_of(container) for first-party appends (SymbolTable / BlockBuilder internals are assumed contracts)',
+                    'printing, authorizer equality'],
+    'assumptions': CRYPTO_ASSUMPTIONS + _TOKEN_CONTRACT_TRUST,
+    'level_text': 'Deductive proof of the parts of the in-memory/reloaded agreement that are carried by the token-level code: representation invariant, table frame of third-party appends, seal, verify. '
+                  'The symbol-table internals are assumed contracts, so the property is decided only up to them.',
+}
+
+# obligation pattern -> concrete witness search on the real crate (replay/src/main.rs)
+WITNESS = {
+    r'token::(unverified::UnverifiedBiscuit|Biscuit)::block::call-pre': 'tools/replay.sh block_index',
+    r'UnverifiedBiscuit::append_third_party_with_keypair::call-pre.*unwrap': 'tools/replay.sh unverified_third_party_unwrap',
+    r'UnverifiedBiscuit::append_third_party_with_keypair::ensures\.tables': 'tools/replay.sh unverified_third_party_tables',
+}
+
 NOT_APPLICABLE = {
     'C03': 'check not built yet in this revision (planned: TrustedOrigins::from_scopes against the specification set, DESIGN.md 5/C03)',
     'C04': 'check not built yet in this revision (planned: scope computation and query scoping, DESIGN.md 5/C04)',
     'C05': 'the join/fixpoint engine is Box<dyn Iterator> + move closures over HashMap<Origin, HashSet<Fact>>: Verus cannot type the iterator objects, so no contract can be attached to the join; Kani did not terminate on this code (DESIGN.md 5/C05)',
     'C06': 'check not built yet in this revision (planned: Binary::evaluate integer arms, DESIGN.md 5/C06)',
-    'C09': 'check not built yet in this revision (planned: panic-freedom of the block accessors and limit arithmetic, DESIGN.md 5/C09)',
     'C10': 'check not built yet in this revision (planned: budget logic of run_with_limits, DESIGN.md 5/C10)',
     'C11': 'quantifies over hash iteration orders of the closure/iterator engine code that neither verifier ingests (DESIGN.md 5/C11)',
-    'C12': 'check not built yet in this revision (planned: token symbol-table invariant, DESIGN.md 5/C12)',
     'C13': 'snapshot()/from_snapshot() are chains of iter().map(closure).collect::<Result<..>>() over prost messages with symbol re-interning: outside Verus subset, Kani out of budget (DESIGN.md 5/C13)',
     'C14': 'printing is fmt::Display/format! (macro-generated), parsing is nom combinators (closures returning closures): there is no function on either side to which a contract can be attached (DESIGN.md 5/C14)',
     'C16': 'check not built yet in this revision (planned: SchemaVersion / block_signature_version, DESIGN.md 5/C16)',
